@@ -7,6 +7,7 @@ import (
 	"fmt"
 	"math"
 	"math/rand"
+	"sort"
 
 	"github.com/unixpickle/model3d/render3d"
 	"pgregory.net/rapid"
@@ -57,15 +58,68 @@ func (m Mat) Build() render3d.Material {
 
 func isZero(v kit.V3) bool { return v[0] == 0 && v[1] == 0 && v[2] == 0 }
 
-// kinds lists the leaf kinds of the material (for labels).
+// kinds lists the leaf kinds and variants of the material (for labels).
 func (m Mat) kinds(out map[string]bool) {
-	if m.Kind == "joined" {
+	switch m.Kind {
+	case "joined":
 		for _, p := range m.Parts {
+			if p.Kind == "joined" {
+				out["joined:nested"] = true
+			}
 			p.kinds(out)
 		}
 		return
+	case "phong":
+		if isZero(m.Diff) {
+			out["phong:specular-only"] = true
+		} else {
+			out["phong:with-diffuse"] = true
+		}
+		if m.NoFlux {
+			out["phong:no-flux-correction"] = true
+		} else {
+			out["phong:flux-correction"] = true
+		}
+		out[alphaClass("phong:alpha", m.Alpha)] = true
+	case "hg":
+		if m.IgnoreNormals {
+			out["hg:ignore-normals"] = true
+		} else {
+			out["hg:cancel-cosine"] = true
+		}
+		switch {
+		case math.Abs(m.G) < 1e-5:
+			out["hg:g~0(clamped)"] = true
+		case m.G < 0:
+			out["hg:backward"] = true
+		default:
+			out["hg:forward"] = true
+		}
+	case "refract":
+		if isZero(m.Spec) {
+			out["refract:plain"] = true
+		} else {
+			out["refract:fresnel"] = true
+		}
+		if m.Index < 1 {
+			out["refract:index<1"] = true
+		}
 	}
 	out[m.Kind] = true
+}
+
+func alphaClass(prefix string, a float64) string {
+	switch {
+	case a == 0:
+		return prefix + "=0"
+	case a < 0.1:
+		return prefix + "<0.1"
+	case a < 1:
+		return prefix + "<1"
+	case a <= 100:
+		return prefix + "<=100"
+	}
+	return prefix + ">100"
 }
 
 // suiteValue reports whether every parameter of the (leaf) material is one the
@@ -298,21 +352,40 @@ func (s Subject) build() dist {
 func (s Subject) labels(o *kit.Obs) {
 	ks := map[string]bool{}
 	s.Mat.kinds(ks)
-	for _, k := range []string{"lambert", "phong", "hg", "refract"} {
-		if ks[k] {
-			o.Label("mat:" + k)
-		}
+	var names []string
+	for k := range ks {
+		names = append(names, k)
+	}
+	sort.Strings(names)
+	for _, k := range names {
+		o.Label("mat:" + k)
 	}
 	if s.Mat.Kind == "joined" {
 		o.Label("mat:joined")
 	}
 	o.Label("mode:" + s.Mode)
+	if s.Mode == "dest" {
+		// DestDensity/SampleDest: materials that are not an AsymMaterial go through the generic fallback
+		if s.Mat.Kind == "refract" || s.Mat.Kind == "joined" {
+			o.Label("dest:own-method")
+		} else {
+			o.Label("dest:generic-fallback")
+		}
+	}
 	if s.Focus != nil {
 		st := "active"
 		if !s.Focus.active(s.Point) {
 			st = "fallback"
+			if s.Focus.Filter == "reject" {
+				st = "fallback:filter"
+			}
 		}
 		o.Label("focus:" + s.Focus.Kind + ":" + st)
+		if st == "active" && s.Focus.Kind == "phong" {
+			o.Label(alphaClass("focus:phong:alpha", s.Focus.Alpha))
+		}
+	} else {
+		o.Label("focus:none")
 	}
 	if c := math.Abs(s.Normal.Dot(s.Fixed)); c < 0.02 {
 		o.Label("incidence:grazing")
